@@ -47,7 +47,8 @@ class Echo(object):
     def on_post(self, req, resp, **kw):
         resp.media = {'who': self.who, 'params': {k: str(v) for k, v in sorted(kw.items())},
                       'hdr': req.get_header('X-Token'), 'body': req.bounded_stream.read().decode(),
-                      'q': req.get_param('q'), 'ctx': getattr(req.context, 'token', None), 'tenant': req.get_param('tenant')}
+                      'q': req.get_param('q'), 'ctx': getattr(req.context, 'token', None), 'tenant': req.get_param('tenant'),
+                      'hdr_twin': req.get_header('X_Token'), 'hdr_own': req.get_header('x-token')}
         resp.set_header('X-Echo', req.get_header('X-Token') or '')
 
 
@@ -93,7 +94,13 @@ def _own_values_only(body, tok, what, ctx):
         return
     if not isinstance(doc, dict) or 'who' not in doc:
         return
-    seen = {'hdr': doc.get('hdr'), 'ctx': doc.get('ctx'), 'tenant': doc.get('tenant')}
+    seen = {'hdr': doc.get('hdr'), 'ctx': doc.get('ctx'), 'tenant': doc.get('tenant'), 'hdr_own': doc.get('hdr_own')}
+    if doc.get('hdr_twin') is not None:
+        # 'X_Token' is another header name than 'X-Token' (only CGI-style environ keys fold '-' into '_'): the request
+        # does not carry it.  (The WSGI environ cannot tell the two apart; only the ASGI rendering is judged.)
+        if what.startswith('ASGI'):
+            raise Violation('foreign_value_observed', '%s: get_header(\'X_Token\') = %r although no such header was sent; %s'
+                            % (what, doc.get('hdr_twin'), ctx))
     for k, v in (doc.get('params') or {}).items():
         if k.startswith('mw_'):
             seen['params.' + k] = v
@@ -772,7 +779,7 @@ class AEcho(object):
             media = req2
         resp.media = {'who': self.who, 'params': {k: str(v) for k, v in sorted(kw.items())}, 'hdr': req.get_header('X-Token'),
                       'body': body.decode(), 'q': req.get_param('q'), 'ctx': getattr(req.context, 'token', None), 'media': media,
-                      'tenant': req.get_param('tenant')}
+                      'tenant': req.get_param('tenant'), 'hdr_twin': req.get_header('X_Token'), 'hdr_own': req.get_header('x-token')}
         if req.get_param('q') == 't5':
             raise falcon.HTTPConflict(title='conflict', description=req.get_header('X-Token'))
 
